@@ -415,7 +415,7 @@ func generate(c *gen.Ctx, l *gen.Lean) error {
 		return err
 	}
 	ss, s5, zc, dr := full{ssP}, full{s5P}, full{zcP}, full{drP}
-	sv, err := loadLite(c, "service", "udp.go", "server.go", "udp_nat.go", "udp_session.go")
+	sv, err := loadLite(c, "service", "udp.go", "server.go", "udp_nat.go", "udp_session.go", "udp_nat_mmsg.go", "udp_session_mmsg.go", "udp_transparent_linux.go")
 	if err != nil {
 		return err
 	}
@@ -1033,7 +1033,275 @@ func generate(c *gen.Ctx, l *gen.Lean) error {
 		}
 		l.Comment("service/%s.go: `natConnRecvBufSize: clientSession.MaxPacketSize`", r.file)
 	}
+	if err := limitSites(c, l, sv); err != nil {
+		return err
+	}
 	return nil
+}
+
+// ---------- where the relays compute / cache MaxPacketSizeForAddr ----------
+
+// limitSites (1) inventories every call of zerocopy.MaxPacketSizeForAddr in package service: the set of
+// (file, function, assigned variable and operator) must be exactly the known one and every *initial* computation
+// must name the address the packets of that loop are sent to; (2) translates the block that refreshes the cached
+// limit of a session downlink when the client address info changes into a statement program (LimStmt) for both
+// the generic and the sendmmsg loop. Unknown statements, deeper nesting or other guards abort.
+func limitSites(c *gen.Ctx, l *gen.Lean, sv *lite) error {
+	type site struct{ file, fn, stmt string }
+	var got []string
+	for _, f := range sv.files {
+		file := filepath.Base(c.Fset.Position(f.Pos()).Filename)
+		for _, d := range f.Decls {
+			fd, ok := d.(*ast.FuncDecl)
+			if !ok || fd.Body == nil {
+				continue
+			}
+			var stack []ast.Node
+			ast.Inspect(fd.Body, func(n ast.Node) bool {
+				if n == nil {
+					stack = stack[:len(stack)-1]
+					return true
+				}
+				stack = append(stack, n)
+				if call, ok := n.(*ast.CallExpr); ok && sv.Src(call.Fun) == "zerocopy.MaxPacketSizeForAddr" {
+					stmt := "?"
+					for i := len(stack) - 1; i >= 0; i-- {
+						if as, ok := stack[i].(*ast.AssignStmt); ok && len(as.Lhs) == 1 {
+							stmt = sv.Src(as.Lhs[0]) + " " + as.Tok.String()
+							if as.Tok == token.DEFINE { // initial computations are pinned verbatim
+								stmt = sv.Src(as)
+							}
+							break
+						}
+					}
+					got = append(got, file+" | "+fd.Name.Name+" | "+stmt)
+				}
+				return true
+			})
+		}
+	}
+	sort.Strings(got)
+	want := []string{
+		"server.go | UDPRelay | packetBufRecvSize := zerocopy.MaxPacketSizeForAddr(sc.MTU, netip.IPv4Unspecified())",
+		"udp_nat.go | relayNatConnToServerConnGeneric | maxClientPacketSize := zerocopy.MaxPacketSizeForAddr(s.mtu, downlink.clientAddrPort.Addr())",
+		"udp_nat_mmsg.go | relayNatConnToServerConnSendmmsg | maxClientPacketSize := zerocopy.MaxPacketSizeForAddr(s.mtu, downlink.clientAddrPort.Addr())",
+		"udp_session.go | relayNatConnToServerConnGeneric | maxClientPacketSize :=  zerocopy.MaxPacketSizeForAddr(s.mtu, clientAddrPort.Addr())",
+		"udp_session.go | relayNatConnToServerConnGeneric | maxClientPacketSize =",
+		"udp_session_mmsg.go | relayNatConnToServerConnSendmmsg | maxClientPacketSize := zerocopy.MaxPacketSizeForAddr(s.mtu, clientAddrPort.Addr())",
+		"udp_session_mmsg.go | relayNatConnToServerConnSendmmsg | maxClientPacketSize =",
+		"udp_transparent_linux.go | relayNatConnToServerConnSendmmsg | maxClientPacketSize := zerocopy.MaxPacketSizeForAddr(s.mtu, downlink.clientAddrPort.Addr())",
+	}
+	want[3] = strings.Replace(want[3], ":=  ", ":= ", 1)
+	sort.Strings(want)
+	if strings.Join(got, "\n") != strings.Join(want, "\n") {
+		return fmt.Errorf("service: the call sites of zerocopy.MaxPacketSizeForAddr changed: have %q, expected %q", got, want)
+	}
+	for _, g := range got {
+		l.Comment("MaxPacketSizeForAddr call site: %s", g)
+	}
+
+	// NAT relays: one client address per entry; packets are written to that same address
+	type natSite struct{ recv, fn string; stmts []string }
+	for _, n := range []natSite{
+		{"*UDPNATRelay", "relayNatConnToServerConnGeneric", []string{
+			"_, _, err = downlink.serverConn.WriteMsgUDPAddrPort(packetBuf[packetStart:packetStart+packetLength], clientPktinfo, downlink.clientAddrPort)"}},
+		{"*UDPNATRelay", "relayNatConnToServerConnSendmmsg", []string{
+			"name, namelen := conn.AddrPortToSockaddr(downlink.clientAddrPort)",
+			"packetStart, packetLength, err := downlink.serverConnPacker.PackInPlace(packetBuf, payloadSourceAddrPort, payloadStart, payloadLength, maxClientPacketSize)"}},
+	} {
+		e, err := fn(l, sv, n.recv, n.fn)
+		if err != nil {
+			return err
+		}
+		if err := e.require(n.stmts...); err != nil {
+			return err
+		}
+		if k, err := assignCount(sv, e.fd, "maxClientPacketSize"); err != nil || k != 1 {
+			return fmt.Errorf("%s: maxClientPacketSize is assigned %d times (expected once) %v", e.name, k, err)
+		}
+	}
+
+	l.Raw(`/-- operations of the block that follows a change of the session's client address info -/
+inductive LimOp
+  | setInfoPtr | setAddrFromNew | setPktinfoFromNew   -- clientAddrInfop = caip; clientAddrPort = caip.addrPort; clientPktinfo = caip.pktinfo
+  | setLimitFromCur   -- maxClientPacketSize = zerocopy.MaxPacketSizeForAddr(s.mtu, clientAddrPort.Addr())
+  | setLimitFromNew   -- maxClientPacketSize = zerocopy.MaxPacketSizeForAddr(s.mtu, caip.addrPort.Addr())
+  | setDestFromCur    -- the address packets are sent to := clientAddrPort
+  | other             -- touches none of the tracked variables
+deriving DecidableEq, Repr
+
+/-- a statement of that block; ifIs4Differs: it sits inside if caip.addrPort.Addr().Is4() != clientAddrPort.Addr().Is4() -/
+structure LimStmt where
+  ifIs4Differs : Bool
+  op : LimOp
+deriving DecidableEq, Repr
+`)
+	for _, r := range []struct{ fnName, lean string; mmsg bool }{
+		{"relayNatConnToServerConnGeneric", "sessionRefreshGeneric", false},
+		{"relayNatConnToServerConnSendmmsg", "sessionRefreshMmsg", true},
+	} {
+		e, err := fn(l, sv, "*UDPSessionRelay", r.fnName)
+		if err != nil {
+			return err
+		}
+		init := []string{"clientAddrInfop := downlink.clientAddrInfop", "clientAddrPort := clientAddrInfop.addrPort"}
+		if r.mmsg {
+			init = []string{"clientAddrInfop := downlink.clientAddrInfop", "clientAddrPort := downlink.clientAddrInfop.addrPort",
+				"name, namelen := conn.AddrPortToSockaddr(clientAddrPort)"}
+		} else {
+			init = append(init, "_, _, err = downlink.serverConn.WriteMsgUDPAddrPort(packetBuf[packetStart:packetStart+packetLength], clientPktinfo, clientAddrPort)")
+		}
+		init = append(init, "packetStart, packetLength, err := downlink.serverConnPacker.PackInPlace(packetBuf, payloadSourceAddrPort, payloadStart, payloadLength, maxClientPacketSize)")
+		if err := e.require(init...); err != nil {
+			return err
+		}
+		// the refresh block
+		var blocks []*ast.IfStmt
+		ast.Inspect(e.fd.Body, func(n ast.Node) bool {
+			if is, ok := n.(*ast.IfStmt); ok && is.Init != nil && sv.Src(is.Init) == "caip := downlink.clientAddrInfo.Load()" {
+				blocks = append(blocks, is)
+			}
+			return true
+		})
+		if len(blocks) != 1 || sv.Src(blocks[0].Cond) != "caip != clientAddrInfop" || blocks[0].Else != nil {
+			return fmt.Errorf("%s: expected exactly one `if caip := downlink.clientAddrInfo.Load(); caip != clientAddrInfop { … }`, found %d", e.name, len(blocks))
+		}
+		var prog []string
+		var tr func(list []ast.Stmt, guarded bool) error
+		tracked := map[string]bool{"clientAddrInfop": true, "clientAddrPort": true, "clientPktinfo": true, "maxClientPacketSize": true, "name": true, "namelen": true}
+		emit := func(guarded bool, op, src string) {
+			prog = append(prog, fmt.Sprintf("  ⟨%v, .%s⟩  -- %s", guarded, op, src))
+		}
+		tr = func(list []ast.Stmt, guarded bool) error {
+			for _, st := range list {
+				src := sv.Src(st)
+				switch x := st.(type) {
+				case *ast.AssignStmt:
+					if len(x.Lhs) != 1 || len(x.Rhs) != 1 || x.Tok != token.ASSIGN {
+						return fmt.Errorf("%s: refresh block: unrecognised assignment `%s`", e.name, src)
+					}
+					lhs, rhs := sv.Src(x.Lhs[0]), sv.Src(x.Rhs[0])
+					switch {
+					case lhs == "clientAddrInfop" && rhs == "caip":
+						emit(guarded, "setInfoPtr", src)
+					case lhs == "clientAddrPort" && rhs == "caip.addrPort":
+						if guarded {
+							return fmt.Errorf("%s: refresh block: the client address is updated under a guard: `%s`", e.name, src)
+						}
+						emit(guarded, "setAddrFromNew", src)
+					case lhs == "clientPktinfo" && rhs == "caip.pktinfo":
+						emit(guarded, "setPktinfoFromNew", src)
+					case lhs == "maxClientPacketSize" && rhs == "zerocopy.MaxPacketSizeForAddr(s.mtu, clientAddrPort.Addr())":
+						emit(guarded, "setLimitFromCur", src)
+					case lhs == "maxClientPacketSize" && rhs == "zerocopy.MaxPacketSizeForAddr(s.mtu, caip.addrPort.Addr())":
+						emit(guarded, "setLimitFromNew", src)
+					default:
+						return fmt.Errorf("%s: refresh block: unrecognised assignment `%s`", e.name, src)
+					}
+				case *ast.IfStmt:
+					c := sv.Src(x.Cond)
+					if guarded || x.Init != nil || x.Else != nil ||
+						(c != "caip.addrPort.Addr().Is4() != clientAddrPort.Addr().Is4()" && c != "clientAddrPort.Addr().Is4() != caip.addrPort.Addr().Is4()") {
+						return fmt.Errorf("%s: refresh block: unrecognised conditional `if %s`", e.name, c)
+					}
+					// the guard compares against clientAddrPort as it is when the guard is evaluated: only statements
+					// that do not change it may follow inside (checked above: no guarded address update)
+					if err := tr(x.Body.List, true); err != nil {
+						return err
+					}
+				case *ast.ExprStmt:
+					if r.mmsg && src == "conn.SockaddrPutAddrPort(&name, &namelen, clientAddrPort)" {
+						if guarded {
+							return fmt.Errorf("%s: refresh block: the destination sockaddr is updated under a guard", e.name)
+						}
+						emit(guarded, "setDestFromCur", src)
+						continue
+					}
+					return fmt.Errorf("%s: refresh block: unrecognised statement `%s`", e.name, src)
+				case *ast.RangeStmt:
+					bad := false
+					ast.Inspect(x.Body, func(n ast.Node) bool {
+						if as, ok := n.(*ast.AssignStmt); ok {
+							for _, lh := range as.Lhs {
+								if id, ok := lh.(*ast.Ident); ok && tracked[id.Name] {
+									bad = true
+								}
+							}
+						}
+						return true
+					})
+					if bad {
+						return fmt.Errorf("%s: refresh block: a loop assigns a tracked variable: `%s`", e.name, src)
+					}
+					emit(guarded, "other", "for … { "+strconv.Itoa(len(x.Body.List))+" statements on smsgvec }")
+				default:
+					return fmt.Errorf("%s: refresh block: unrecognised statement `%s`", e.name, src)
+				}
+			}
+			return nil
+		}
+		if err := tr(blocks[0].Body.List, false); err != nil {
+			return err
+		}
+		if !r.mmsg {
+			// the generic loop writes to clientAddrPort itself (WriteMsgUDPAddrPort(…, clientAddrPort), required above)
+			prog = append(prog, "  ⟨false, .setDestFromCur⟩  -- WriteMsgUDPAddrPort(…, clientPktinfo, clientAddrPort)")
+		}
+		// no assignment to the cached limit or the address outside the initialisation and this block
+		inBlock := func(name string) int {
+			k := 0
+			ast.Inspect(blocks[0].Body, func(n ast.Node) bool {
+				if as, ok := n.(*ast.AssignStmt); ok {
+					for _, lh := range as.Lhs {
+						if sv.Src(lh) == name {
+							k++
+						}
+					}
+				}
+				return true
+			})
+			return k
+		}
+		for _, v := range []string{"maxClientPacketSize", "clientAddrPort"} {
+			k, err := assignCount(sv, e.fd, v)
+			if err != nil {
+				return err
+			}
+			if k != 1+inBlock(v) {
+				return fmt.Errorf("%s: %s is assigned outside its initialisation and the refresh block (%d assignments)", e.name, v, k)
+			}
+		}
+		// Lean needs the comment after the separator: put "," before the comment
+		var sb strings.Builder
+		for i, p := range prog {
+			code, cm, _ := strings.Cut(p, "  -- ")
+			sep := ","
+			if i == len(prog)-1 {
+				sep = ""
+			}
+			sb.WriteString(code + sep + "  -- " + cm + "\n")
+		}
+		l.Raw(fmt.Sprintf("/-- service.*UDPSessionRelay.%s: the statements of `if caip := downlink.clientAddrInfo.Load(); caip != clientAddrInfop { … }` in order -/\ndef %s : List LimStmt := [\n%s]\n", r.fnName, r.lean, sb.String()))
+	}
+
+	// uplink: a client session's limit is derived from the very address its packets are sent to
+	return nil
+}
+
+// assignCount counts assignments (= and :=) to the identifier name in fd.
+func assignCount(p pkgI, fd *ast.FuncDecl, name string) (int, error) {
+	k := 0
+	ast.Inspect(fd.Body, func(n ast.Node) bool {
+		if as, ok := n.(*ast.AssignStmt); ok {
+			for _, lh := range as.Lhs {
+				if p.Src(lh) == name {
+					k++
+				}
+			}
+		}
+		return true
+	})
+	return k, nil
 }
 
 // switchFacts checks that fd holds a tagless switch whose first two case conditions are exactly c1, c2.
